@@ -67,6 +67,12 @@ P = {
          "generated sequences; replies, device deliveries, queue balance, producer survival, shutdown completion and the device-available payload "
          "(against the Coq netinfo encoder) are compared.",
          "partial: payload decodability is an oracle (real decoder on a fresh device); CPython task scheduling inside one loop iteration is not modelled."),
+ "C10": ("Theorems C10_unique (for every sequence of frame arrivals, class-loading completions and user get() calls, the locked device-entry "
+         "model creates at most one object, starts set-up exactly once per object, and every handled frame and every get() lands on that object) "
+         "and C10_complete (once loading completed nothing is left waiting and every arrived frame has been handled) - closed, by invariant; "
+         "C10_pinned_refuted for the unserialised (pinned) behaviour. Real AsyncProtocol with run_in_executor replaced by harness-held futures: "
+         "exhaustive enumeration of 1..4 frames x 1..3 consumers x completion position x 0..2 get() positions (645 schedules).",
+         "partial: thread-pool timing is reduced to the position of the completion event; CPython's ready-queue order within one iteration is not an input."),
  "C13": ("Theorems over every operation sequence of the event-manager model (subscribe, subscribe_once, unsubscribe, dispatch tasks, resumption "
          "of suspended callbacks, get with timeout, clock advance; induction with invariants, closed): C13_once (a subscribe_once callback is awaited "
          "at most once), C13_snapshot + C13_spawn_snapshot (every awaited callback belongs to the snapshot its dispatch took when it started, which "
